@@ -104,22 +104,15 @@ def _untla_string(s):
     """A TLA+ string literal as printed by TLC -> python str (TLC escapes \\ and ")."""
     assert s.startswith('"') and s.endswith('"'), s[:80]
     body = s[1:-1]
-    out = []
-    i = 0
-    while i < len(body):
-        c = body[i]
-        if c == "\\" and i + 1 < len(body):
-            n = body[i + 1]
-            out.append({"n": "\n", "t": "\t", "r": "\r", "f": "\f"}.get(n, n))
-            i += 2
-        else:
-            out.append(c)
-            i += 1
-    return "".join(out)
+    if "\\" not in body:
+        return body
+    if body.isascii():
+        return body.encode("latin-1").decode("unicode_escape")
+    return re.sub(r"\\(.)", lambda m: {"n": "\n", "t": "\t", "r": "\r", "f": "\f"}.get(m.group(1), m.group(1)), body)
 
 
 def run_tlc(module, cfg=None, workers=4, simulate=None, depth=None, seed=None, env=None,
-            timeout=3600, xmx="6g", deque=False, coverage=False, tags=("REPLAY",), cwd=SPEC,
+            timeout=3600, xmx="6g", deque=False, coverage=False, tags=("REPLAY", "WORLD"), cwd=SPEC,
             deadlock=False, extra=()):
     """Run TLC on spec/<module>.tla with spec/<cfg>.cfg.  Returns TlcResult.
     Lines of the form <<"TAG", "<json>">> are decoded into result.lines[TAG]."""
@@ -183,6 +176,12 @@ def run_tlc(module, cfg=None, workers=4, simulate=None, depth=None, seed=None, e
         if m:
             r.coverage[m.group(2) + "." + m.group(1)] = r.coverage.get(m.group(2) + "." + m.group(1), 0) + int(m.group(4))
     r.replays = r.lines.get("REPLAY", [])
+    # scenarios may name their world ("world": "<key>"); the generator prints each world once as a WORLD line
+    worlds = {x["key"]: x["world"] for x in r.lines.get("WORLD", [])}
+    for scn in r.replays:
+        if isinstance(scn.get("world"), str):
+            scn["worldkey"] = scn["world"]
+            scn["world"] = worlds[scn["world"]]
     return r
 
 
@@ -525,3 +524,10 @@ def pmap(fn, items, workers=14):
 
 def sha(obj):
     return hashlib.sha1(json.dumps(obj, sort_keys=True).encode()).hexdigest()[:16]
+
+
+def scn_sha(scn):
+    """Identity of a scenario (a named world counts by its key)."""
+    if "worldkey" in scn:
+        return sha({k: v for k, v in scn.items() if k not in ("world", "id", "gen")})
+    return sha({k: v for k, v in scn.items() if k not in ("id", "gen")})
